@@ -35,6 +35,8 @@ type Case struct {
 	Chunked     bool        `json:"chunked"`
 	Pieces      []int       `json:"pieces,omitempty"`
 	ReqTrailers [][2]string `json:"req_trailers,omitempty"`
+	PadLens     []int       `json:"pad_lens,omitempty"`    // raw HTTP/2: padding of the DATA frames (cyclic, -1 = unpadded)
+	Unannounced bool        `json:"unannounced,omitempty"` // raw HTTP/2: request trailers without a "trailer" header
 
 	Status       int         `json:"status"`
 	RespHeaders  [][2]string `json:"resp_headers"`
@@ -46,7 +48,7 @@ type Case struct {
 }
 
 type Script struct {
-	Proto        string `json:"proto"` // h2, http/1.1
+	Proto        string `json:"proto"` // h2 (x/net Transport client), h2raw (hand-framed HTTP/2), http/1.1
 	PreserveHost bool   `json:"preserve_host"`
 	Concurrent   bool   `json:"concurrent"` // h2: all requests in flight at once
 	Cases        []Case `json:"cases"`
@@ -155,6 +157,23 @@ func genCase(t *rapid.T, proto string, i int, thorough bool) Case {
 		if c.Chunked && rapid.IntRange(0, 2).Draw(t, "rtr") == 0 {
 			c.ReqTrailers = [][2]string{{"X-Req-Trailer", shortValue(t, "rtv")}, {"X-Checksum", "abc123"}}
 		}
+		if proto == "h2raw" {
+			// hand-framed uploads: padded DATA frames (with and without a declared length), a body that is
+			// ended by a trailer block the request did not announce
+			if c.BodyLen > 500000 {
+				c.BodyLen = 200000 // the raw peer does not wait for WINDOW_UPDATEs (server window: 1 MiB)
+			}
+			if rapid.Bool().Draw(t, "padded") {
+				c.PadLens = rapid.SliceOfN(rapid.SampledFrom([]int{-1, 0, 1, 17, 255}), 1, 3).Draw(t, "padlens")
+			}
+			if rapid.IntRange(0, 2).Draw(t, "rawtr") == 0 {
+				c.ReqTrailers = [][2]string{{"X-Req-Trailer", "t"}}
+				c.Unannounced = rapid.Bool().Draw(t, "unannounced")
+				if c.Unannounced {
+					c.Chunked = rapid.Bool().Draw(t, "nolen")
+				}
+			}
+		}
 	}
 	c.Status = rapid.SampledFrom([]int{200, 200, 200, 201, 202, 204, 301, 304, 400, 404, 418, 500, 503}).Draw(t, "status")
 	c.RespHeaders = genHeaders(t, "rh", rapid.IntRange(0, 8).Draw(t, "nrh"), true)
@@ -177,7 +196,7 @@ func genCase(t *rapid.T, proto string, i int, thorough bool) Case {
 }
 
 func gen(t *rapid.T) Script {
-	s := Script{Proto: rapid.SampledFrom([]string{"h2", "http/1.1"}).Draw(t, "proto"), PreserveHost: rapid.Bool().Draw(t, "ph")}
+	s := Script{Proto: rapid.SampledFrom([]string{"h2", "http/1.1", "h2raw"}).Draw(t, "proto"), PreserveHost: rapid.Bool().Draw(t, "ph")}
 	n := rapid.IntRange(1, 6).Draw(t, "ncases")
 	for i := 0; i < n; i++ {
 		s.Cases = append(s.Cases, genCase(t, s.Proto, i, vstat.Tier() == "thorough"))
@@ -265,7 +284,11 @@ func exec(t *testing.T, s Script) *vstat.Violation {
 			fail = err.Error()
 			return
 		}
-		c, err := rig.Handshake(raw, rig.ClientOpts{StdALPN: []string{s.Proto}})
+		alpn := s.Proto
+		if alpn == "h2raw" {
+			alpn = "h2"
+		}
+		c, err := rig.Handshake(raw, rig.ClientOpts{StdALPN: []string{alpn}})
 		if err != nil {
 			fail = "handshake: " + err.Error()
 			return
@@ -334,6 +357,29 @@ func exec(t *testing.T, s Script) *vstat.Violation {
 				}
 			}
 			cc.Close()
+		} else if s.Proto == "h2raw" {
+			peer := rig.NewH2Peer(c.Conn)
+			peer.Start()
+			peer.Fr.WriteSettings(xhttp2.Setting{ID: xhttp2.SettingInitialWindowSize, Val: 1 << 30})
+			peer.Fr.WriteWindowUpdate(0, 1<<30-65535)
+			for i, cs := range s.Cases {
+				sid := uint32(1 + 2*i)
+				rs := rig.ReqSpec{Method: cs.Method, Path: target(cs), Authority: cs.Authority, Headers: cs.Headers, Body: body(cs.BodyLen, cs.BodySeed), Pieces: cs.Pieces, Trailers: cs.ReqTrailers,
+					PadLens: cs.PadLens, UnannouncedTrail: cs.Unannounced, DeclareLength: !cs.Chunked && cs.BodyLen > 0}
+				if err := peer.SendH2(sid, rs, nil); err != nil {
+					resps[i].err = "h2 write: " + err.Error()
+					break
+				}
+				ex := peer.AwaitResponse(sid, nil)
+				r := peer.Response(sid)
+				resps[i] = clientResp{status: ex.Status, header: ex.Header, body: r.Body, trailer: http.Header{}, err: ex.Err}
+				for _, f := range r.Trailer {
+					resps[i].trailer.Add(f.Name, f.Value)
+				}
+				if ex.Err != "" {
+					break
+				}
+			}
 		} else {
 			h := rig.NewH1(c.Conn)
 			for i, cs := range s.Cases {
@@ -506,6 +552,12 @@ func exec(t *testing.T, s Script) *vstat.Violation {
 		if len(c.ConnTokens) > 0 {
 			classes = append(classes, "hop-by-hop")
 		}
+		if len(c.PadLens) > 0 && c.BodyLen > 0 {
+			classes = append(classes, "padded-request-data")
+		}
+		if c.Unannounced {
+			classes = append(classes, "unannounced-request-trailers")
+		}
 		if c.Chunked {
 			classes = append(classes, "chunked-or-unknown-length")
 		}
@@ -605,7 +657,7 @@ func dedup(in []string) []string {
 
 func TestPassThrough(t *testing.T) {
 	rig.Certs()
-	col.Mandatory("proto:h2", "proto:http/1.1", "preserve-host:true", "preserve-host:false", "request-body>64KiB", "response-body>64KiB", "request-trailers", "response-trailers", "hop-by-hop", "concurrent", "chunked-or-unknown-length")
+	col.Mandatory("proto:h2", "proto:http/1.1", "preserve-host:true", "preserve-host:false", "request-body>64KiB", "response-body>64KiB", "request-trailers", "response-trailers", "hop-by-hop", "concurrent", "chunked-or-unknown-length", "proto:h2raw", "padded-request-data", "unannounced-request-trailers")
 	vstat.Run(t, vstat.Spec[Script]{Col: col, Quick: 500, Thorough: 8000, Gen: gen, Exec: func(s Script) *vstat.Violation { return exec(t, s) }})
 }
 
